@@ -1,0 +1,172 @@
+//go:build verif
+
+// Machine-checked contracts for package cpumem/types (comment-only; see /verif/DESIGN.md).
+// m[k] in a contract has Go semantics: the zero value when k is absent.
+
+package types
+
+//@ pred small(m CPUMap) = forall k string :: -2305843009213693952 <= m[k] && m[k] <= 2305843009213693952
+//@ pred small64(m NUMAMemory) = forall k string :: -2305843009213693952 <= m[k] && m[k] <= 2305843009213693952
+
+//@ func (CPUMap) TotalPieces
+//@   requires (forall k string :: 0 <= c[k]) && msum(c) <= 2305843009213693952
+//@   ensures[C08.total-pieces] result == msum(c)
+//@   loop 1:
+//@     invariant res == seensum()
+
+//@ func (CPUMap) Add
+//@   requires c != nil || card(c1) == 0
+//@   requires c != c1 && small(c) && small(c1)
+//@   modifies c
+//@   ensures[C08.cpumap-add]     forall k string :: c[k] == old(c[k]) + c1[k]
+//@   ensures[C08.cpumap-add-dom] forall k string :: (k in c) <==> (old(k in c) || k in c1)
+//@   ensures[C08.cpumap-add-sum] msum(c) == old(msum(c)) + msum(c1)
+//@   loop 1:
+//@     invariant forall k string :: c[k] == old(c[k]) + (seen(k) ? c1[k] : 0)
+//@     invariant forall k string :: (k in c) <==> (old(k in c) || seen(k))
+//@     invariant forall k string :: seen(k) ==> k in c1
+//@     invariant msum(c) == old(msum(c)) + seensum()
+
+//@ func (CPUMap) Sub
+//@   requires c != nil || card(c1) == 0
+//@   requires c != c1 && small(c) && small(c1)
+//@   modifies c
+//@   ensures[C08.cpumap-sub]     forall k string :: c[k] == old(c[k]) - c1[k]
+//@   ensures[C08.cpumap-sub-dom] forall k string :: (k in c) <==> (old(k in c) || k in c1)
+//@   ensures[C08.cpumap-sub-sum] msum(c) == old(msum(c)) - msum(c1)
+//@   loop 1:
+//@     invariant forall k string :: c[k] == old(c[k]) - (seen(k) ? c1[k] : 0)
+//@     invariant forall k string :: (k in c) <==> (old(k in c) || seen(k))
+//@     invariant forall k string :: seen(k) ==> k in c1
+//@     invariant msum(c) == old(msum(c)) - seensum()
+
+//@ func (NUMAMemory) Add
+//@   requires n != nil || card(n1) == 0
+//@   requires n != n1 && small64(n) && small64(n1)
+//@   modifies n
+//@   ensures[C08.numa-add]     forall k string :: n[k] == old(n[k]) + n1[k]
+//@   ensures[C08.numa-add-dom] forall k string :: (k in n) <==> (old(k in n) || k in n1)
+//@   loop 1:
+//@     invariant forall k string :: n[k] == old(n[k]) + (seen(k) ? n1[k] : 0)
+//@     invariant forall k string :: (k in n) <==> (old(k in n) || seen(k))
+//@     invariant forall k string :: seen(k) ==> k in n1
+
+//@ func (NUMAMemory) Sub
+//@   requires n != nil || card(n1) == 0
+//@   requires n != n1 && small64(n) && small64(n1)
+//@   modifies n
+//@   ensures[C08.numa-sub]     forall k string :: n[k] == old(n[k]) - n1[k]
+//@   ensures[C08.numa-sub-dom] forall k string :: (k in n) <==> (old(k in n) || k in n1)
+//@   loop 1:
+//@     invariant forall k string :: n[k] == old(n[k]) - (seen(k) ? n1[k] : 0)
+//@     invariant forall k string :: (k in n) <==> (old(k in n) || seen(k))
+//@     invariant forall k string :: seen(k) ==> k in n1
+
+//@ # ---------- NodeResource ----------
+
+//@ pred sameCPUMap(a CPUMap, b CPUMap) = forall k string :: ((k in a) <==> (k in b)) && a[k] == b[k]
+//@ pred sameNUMAMem(a NUMAMemory, b NUMAMemory) = forall k string :: ((k in a) <==> (k in b)) && a[k] == b[k]
+//@ pred sameNUMA(a NUMA, b NUMA) = forall k string :: ((k in a) <==> (k in b)) && a[k] == b[k]
+//@ pred smallNode(r *NodeResource) = small(r.CPUMap) && small64(r.NUMAMemory)
+//@        && -2305843009213693952 <= r.Memory && r.Memory <= 2305843009213693952
+
+//@ func (*NodeResource) DeepCopy
+//@   requires r != nil
+//@   ensures[C08.node-copy-fresh] result != nil && fresh(result) && result.CPUMap != nil && fresh(result.CPUMap)
+//@              && result.NUMAMemory != nil && fresh(result.NUMAMemory) && result.NUMA != nil && fresh(result.NUMA)
+//@              && result.CPUMap != result.NUMAMemory
+//@   ensures[C08.node-copy] result.CPU == r.CPU && result.Memory == r.Memory
+//@              && sameCPUMap(result.CPUMap, r.CPUMap) && sameNUMAMem(result.NUMAMemory, r.NUMAMemory) && sameNUMA(result.NUMA, r.NUMA)
+//@   ensures[C08.node-copy-sum] msum(result.CPUMap) == msum(r.CPUMap)
+//@   loop 1:
+//@     invariant forall k string :: ((k in res.CPUMap) <==> seen(k)) && res.CPUMap[k] == (seen(k) ? r.CPUMap[k] : 0)
+//@     invariant forall k string :: seen(k) ==> k in r.CPUMap
+//@     invariant res.CPUMap != nil && fresh(res.CPUMap) && allocated(res.CPUMap) && res.NUMAMemory != nil && fresh(res.NUMAMemory) && allocated(res.NUMAMemory)
+//@     invariant res.NUMA != nil && fresh(res.NUMA) && allocated(res.NUMA) && card(res.NUMAMemory) == 0 && card(res.NUMA) == 0
+//@     invariant (forall k string :: !(k in res.NUMAMemory)) && (forall k string :: !(k in res.NUMA))
+//@     invariant msum(res.CPUMap) == seensum()
+//@   loop 2:
+//@     invariant sameCPUMap(res.CPUMap, r.CPUMap) && msum(res.CPUMap) == msum(r.CPUMap)
+//@     invariant forall k string :: ((k in res.NUMAMemory) <==> seen(k)) && res.NUMAMemory[k] == (seen(k) ? r.NUMAMemory[k] : 0)
+//@     invariant forall k string :: seen(k) ==> k in r.NUMAMemory
+//@     invariant res.CPUMap != nil && fresh(res.CPUMap) && allocated(res.CPUMap) && res.NUMAMemory != nil && fresh(res.NUMAMemory) && allocated(res.NUMAMemory)
+//@     invariant res.NUMA != nil && fresh(res.NUMA) && allocated(res.NUMA) && (forall k string :: !(k in res.NUMA))
+//@   loop 3:
+//@     invariant sameCPUMap(res.CPUMap, r.CPUMap) && msum(res.CPUMap) == msum(r.CPUMap) && sameNUMAMem(res.NUMAMemory, r.NUMAMemory)
+//@     invariant forall k string :: ((k in res.NUMA) <==> seen(k)) && res.NUMA[k] == (seen(k) ? r.NUMA[k] : "")
+//@     invariant forall k string :: seen(k) ==> k in r.NUMA
+//@     invariant res.CPUMap != nil && fresh(res.CPUMap) && allocated(res.CPUMap) && res.NUMAMemory != nil && fresh(res.NUMAMemory) && allocated(res.NUMAMemory)
+//@     invariant res.NUMA != nil && fresh(res.NUMA) && allocated(res.NUMA)
+
+//@ func (*NodeResource) Add
+//@   requires r != nil && r1 != nil && r != r1 && smallNode(r) && smallNode(r1)
+//@   requires (r.CPUMap != nil || card(r1.CPUMap) == 0) && r.CPUMap != r1.CPUMap
+//@   requires (r.NUMAMemory != nil || card(r1.NUMAMemory) == 0) && r.NUMAMemory != r1.NUMAMemory
+//@   modifies r, r.CPUMap, r.NUMAMemory
+//@   ensures[C08.node-add] r.CPU == old(r.CPU) + r1.CPU && r.Memory == old(r.Memory) + r1.Memory
+//@        && r.CPUMap == old(r.CPUMap) && r.NUMAMemory == old(r.NUMAMemory)
+//@        && (forall k string :: r.CPUMap[k] == old(r.CPUMap[k]) + r1.CPUMap[k])
+//@        && (forall k string :: r.NUMAMemory[k] == old(r.NUMAMemory[k]) + r1.NUMAMemory[k])
+//@        && msum(r.CPUMap) == old(msum(r.CPUMap)) + msum(r1.CPUMap)
+//@   ensures[C08.node-add-numa] r.NUMA == (card(r1.NUMA) > 0 ? r1.NUMA : old(r.NUMA))
+//@   loop 1:
+//@     modifies r.NUMAMemory
+//@     invariant forall k string :: r.NUMAMemory[k] == old(r.NUMAMemory[k]) + (seen(k) ? r1.NUMAMemory[k] : 0)
+//@     invariant forall k string :: seen(k) ==> k in r1.NUMAMemory
+
+//@ func (*NodeResource) Sub
+//@   requires r != nil && r1 != nil && r != r1 && smallNode(r) && smallNode(r1)
+//@   requires (r.CPUMap != nil || card(r1.CPUMap) == 0) && r.CPUMap != r1.CPUMap
+//@   requires (r.NUMAMemory != nil || card(r1.NUMAMemory) == 0) && r.NUMAMemory != r1.NUMAMemory
+//@   modifies r, r.CPUMap, r.NUMAMemory
+//@   ensures[C08.node-sub] r.CPU == old(r.CPU) - r1.CPU && r.Memory == old(r.Memory) - r1.Memory
+//@        && r.CPUMap == old(r.CPUMap) && r.NUMAMemory == old(r.NUMAMemory) && r.NUMA == old(r.NUMA)
+//@        && (forall k string :: r.CPUMap[k] == old(r.CPUMap[k]) - r1.CPUMap[k])
+//@        && (forall k string :: r.NUMAMemory[k] == old(r.NUMAMemory[k]) - r1.NUMAMemory[k])
+//@        && msum(r.CPUMap) == old(msum(r.CPUMap)) - msum(r1.CPUMap)
+//@   loop 1:
+//@     modifies r.NUMAMemory
+//@     invariant forall k string :: r.NUMAMemory[k] == old(r.NUMAMemory[k]) - (seen(k) ? r1.NUMAMemory[k] : 0)
+//@     invariant forall k string :: seen(k) ==> k in r1.NUMAMemory
+
+//@ # ---------- WorkloadResource ----------
+
+//@ pred smallWl(w *WorkloadResource) = small(w.CPUMap) && small64(w.NUMAMemory)
+//@        && -2305843009213693952 <= w.MemoryRequest && w.MemoryRequest <= 2305843009213693952
+
+//@ func (*WorkloadResource) DeepCopy
+//@   requires w != nil
+//@   ensures[C08.wl-copy-fresh] result != nil && fresh(result) && result.CPUMap != nil && fresh(result.CPUMap)
+//@              && result.NUMAMemory != nil && fresh(result.NUMAMemory)
+//@   ensures[C08.wl-copy] result.CPURequest == w.CPURequest && result.CPULimit == w.CPULimit
+//@              && result.MemoryRequest == w.MemoryRequest && result.MemoryLimit == w.MemoryLimit && result.NUMANode == w.NUMANode
+//@              && sameCPUMap(result.CPUMap, w.CPUMap)
+//@   ensures[C08.wl-copy-numa] sameNUMAMem(result.NUMAMemory, w.NUMAMemory)
+//@   loop 1:
+//@     invariant forall k string :: ((k in res.CPUMap) <==> seen(k)) && res.CPUMap[k] == (seen(k) ? w.CPUMap[k] : 0)
+//@     invariant forall k string :: seen(k) ==> k in w.CPUMap
+//@     invariant res.CPUMap != nil && fresh(res.CPUMap) && allocated(res.CPUMap) && res.NUMAMemory != nil && fresh(res.NUMAMemory) && allocated(res.NUMAMemory)
+//@     invariant forall k string :: !(k in res.NUMAMemory)
+//@   loop 2:
+//@     invariant sameCPUMap(res.CPUMap, w.CPUMap)
+//@     invariant forall k string :: ((k in res.NUMAMemory) <==> seen(k)) && res.NUMAMemory[k] == (seen(k) ? w.NUMAMemory[k] : 0)
+//@     invariant forall k string :: seen(k) ==> k in w.NUMAMemory
+//@     invariant res.CPUMap != nil && fresh(res.CPUMap) && allocated(res.CPUMap) && res.NUMAMemory != nil && fresh(res.NUMAMemory) && allocated(res.NUMAMemory)
+
+//@ func (*WorkloadResource) Add
+//@   requires w != nil && w1 != nil && w != w1 && smallWl(w) && smallWl(w1)
+//@   requires (w.CPUMap != nil || card(w1.CPUMap) == 0) && w.CPUMap != w1.CPUMap && w.NUMAMemory != w1.NUMAMemory
+//@   modifies w, w.CPUMap, w.NUMAMemory
+//@   ensures[C08.wl-add] w.CPURequest == old(w.CPURequest) + w1.CPURequest && w.MemoryRequest == old(w.MemoryRequest) + w1.MemoryRequest
+//@        && w.CPUMap == old(w.CPUMap)
+//@        && (forall k string :: w.CPUMap[k] == old(w.CPUMap[k]) + w1.CPUMap[k])
+//@        && (forall k string :: w.NUMAMemory[k] == old(w.NUMAMemory[k]) + w1.NUMAMemory[k])
+
+//@ func (*WorkloadResource) Sub
+//@   requires w != nil && w1 != nil && w != w1 && smallWl(w) && smallWl(w1)
+//@   requires (w.CPUMap != nil || card(w1.CPUMap) == 0) && w.CPUMap != w1.CPUMap && w.NUMAMemory != w1.NUMAMemory
+//@   modifies w, w.CPUMap, w.NUMAMemory
+//@   ensures[C08.wl-sub] w.CPURequest == old(w.CPURequest) - w1.CPURequest && w.CPULimit == old(w.CPULimit) - w1.CPULimit
+//@        && w.MemoryRequest == old(w.MemoryRequest) - w1.MemoryRequest && w.CPUMap == old(w.CPUMap)
+//@        && (forall k string :: w.CPUMap[k] == old(w.CPUMap[k]) - w1.CPUMap[k])
+//@        && (forall k string :: w.NUMAMemory[k] == old(w.NUMAMemory[k]) - w1.NUMAMemory[k])
